@@ -201,10 +201,26 @@ def directed_cases():
     return out
 
 
-def gen_cases(seed, n_random):
+def exhaustive_small():
+    """thorough tier: every combination of the config files the migration logic looks at, one command each"""
+    import itertools
+    up = lambda m: {'k': 'up', 'migrate': m, 'embedded': True, 'fmt': 'html', 'out': None}
+    out = []
+    for layout, st, mkey, rules, csv, bak, views in itertools.product(
+            ('old', 'new'), ('full', 'absent'), (None, 'rules'), (False, True), (None, 'rules', 'header'),
+            (False, True), (False, True)):
+        force = {'layout': layout, 'settings': st, 'mkey': mkey, 'rules': rules, 'csv': csv, 'bak': bak, 'views': views,
+                 'data': 'rows', 'notes': False, 'gitignore': False, 'existing_out': None, 'exports': False, 'vkey': False,
+                 'outdir': None, 'html': None, 'settings_tail': '', 'otherdata': False}
+        for spec in ({'k': 'init', 'target': None}, up(True), up(False)):
+            out.append((force, [spec]))
+    return out
+
+
+def gen_cases(seed, n_random, exhaustive=False):
     rnd = random.Random(seed)
     cases = []
-    for force, cmds in directed_cases():
+    for force, cmds in directed_cases() + (exhaustive_small() if exhaustive else []):
         b = gen_budget(rnd, force)
         cases.append({'files': b['files'], 'dirs': b['dirs'], 'feat': b['feat'], 'specs': cmds})
     for _ in range(n_random):
@@ -311,7 +327,8 @@ def direct_oracle(spec, step):
             if p not in S['append']:
                 bad.append((sig('appends-outside-write-set', p), {'op': [kind, p, q]}))
         elif kind == 'rename':
-            if (p, q) not in S['rename']:
+            # the legacy CSV may be renamed to a backup name (merchant_categories.csv.bak*); nothing else may move
+            if not any(p == a and q.startswith(b0) for a, b0 in S['rename']):
                 bad.append((sig('renames', p), {'op': [kind, p, q]}))
         elif kind == 'mkdir':
             if p not in S['mkdir']:
@@ -328,13 +345,15 @@ def direct_oracle(spec, step):
                 bad.append((sig('rewrites', p), {'path': p, 'before': old[:200], 'after': (new or '<missing>')[:200]}))
             continue
         if p not in post['sha']:
-            if p in renamed_from and post['sha'].get(renamed_from[p]) == h:
-                continue        # renamed to the backup name with its content intact
+            if p in renamed_from and any(x.startswith(renamed_from[p]) and hx == h and pre['sha'].get(x) != h
+                                         for x, hx in post['sha'].items()):
+                continue        # renamed to a backup name with its content intact
             bad.append((sig('removes', p), {'path': p}))
         elif post['sha'][p] != h:
             bad.append((sig('overwrites', p), {'path': p, 'before': pre['files'][p][:200], 'after': post['files'][p][:200]}))
     for p in post['sha']:
-        if p not in pre['sha'] and p not in S['report'] and p not in S['create']:
+        if p not in pre['sha'] and p not in S['report'] and p not in S['create'] and \
+                not any(p.startswith(b0) for _, b0 in S['rename']):
             bad.append((sig('creates', p), {'path': p}))
     for d in post['dirs']:
         if d not in pre['dirs'] and d not in S['mkdir']:
@@ -592,10 +611,10 @@ def main(tier):
         broken.append({'kind': 'hygiene', 'detail': res['hygiene']})
 
     # ---- dynamic tie ----
-    n_random = 90 if tier == 'quick' else 1500
+    n_random = 90 if tier == 'quick' else 600
     shutil.rmtree(os.path.join(WORK, 'C20', 'run'), ignore_errors=True)
     starters = calibrate_starters()
-    cases = gen_cases(run.seed, n_random)
+    cases = gen_cases(run.seed, n_random, exhaustive=(tier == 'thorough'))
     results = run_cases_impl(cases)
     items, viol = [], {}
     outside_writes, rc_hist, cmd_hist, layout_hist, pairs, effectful = [], {}, {}, {}, set(), set()
